@@ -222,6 +222,25 @@ def _p2_prime(cx, tab):
                         n += 1
                         a = s['rv']['a']
                         tag = roles.type_tag(F, a[idx]) if len(a) > idx else '?'
+                        if tag == '_':
+                            # built inside a generic constructor of the type itself (`fn watching(target: O) -> Self`): what counts is
+                            # what the callers of that constructor instantiate the parameter with
+                            im0 = F.impl_of_fn(fn)
+                            if im0 is not None and not im0.get('trait') and roles.impl_tag(cx, im0) == adt:
+                                ctags = []
+                                for fn2 in F.fns.values():
+                                    for b2 in fn2['blocks']:
+                                        t2 = b2['t']
+                                        if t2['k'] == 'call' and t2['f']['o'] == 'const' and 'fn' in t2['f']:
+                                            r2 = t2['f']['fn'].get('res') or {}
+                                            if r2.get('d') == fn['key'] or t2['f']['fn'].get('d') == fn['key']:
+                                                a2 = t2['f']['fn'].get('a') or []
+                                                ctags.append(roles.type_tag(F, a2[idx]) if len(a2) > idx else '?')
+                                if ctags and all(c.startswith(('MutRc<Option<', 'MutArc<Option<')) for c in ctags):
+                                    n += len(ctags) - 1
+                                    continue
+                                if ctags:
+                                    tag = [c for c in ctags if not c.startswith(('MutRc<Option<', 'MutArc<Option<'))][0]
                         if not tag.startswith(('MutRc<Option<', 'MutArc<Option<')):
                             return False, '%s is constructed with O = %s in %s (not a shared Option handle)' % (adt.split('::')[-1], tag, cx.label(fn))
         if n < 2:
